@@ -13,7 +13,6 @@ mod findings;
 #[allow(dead_code)]
 mod sqldrv;
 
-use axmosdb::Database;
 use parking_lot::sched;
 use serde::{Deserialize, Serialize};
 use serde_json::{json, Value};
@@ -23,271 +22,8 @@ use std::io::{BufRead, Write};
 use std::sync::Arc;
 use std::time::{Duration, Instant};
 
-#[derive(Debug, Clone, Serialize, Deserialize, PartialEq)]
-enum COp {
-    /// autocommit statement
-    Auto(String),
-    Begin,
-    Stmt(String),
-    Commit,
-    Rollback,
-}
-
-#[derive(Debug, Clone)]
-struct Scenario {
-    name: &'static str,
-    what: &'static str,
-    setup: Vec<String>,
-    clients: Vec<Vec<COp>>,
-    tables: Vec<&'static str>,
-    cfg: Cfg,
-}
-
-fn auto(s: &str) -> COp {
-    COp::Auto(s.into())
-}
-fn stmt(s: &str) -> COp {
-    COp::Stmt(s.into())
-}
-
-fn scenarios() -> Vec<Scenario> {
-    let base = || vec!["CREATE TABLE a (k INT, v INT)".to_string(), "CREATE TABLE b (k INT, v INT)".to_string(), "INSERT INTO a VALUES (1, 10), (2, 20)".to_string(), "INSERT INTO b VALUES (1, 100)".to_string()];
-    let uniq = || vec!["CREATE TABLE x (k INT, v INT, UNIQUE(k))".to_string(), "INSERT INTO x VALUES (1, 10), (2, 20)".to_string(), "CREATE TABLE a (k INT, v INT)".to_string(), "INSERT INTO a VALUES (1, 10)".to_string()];
-    let cfg = Cfg { pool: 1, ..Cfg::default() };
-    let big_named = |t: &str, n: usize| -> Vec<String> {
-        let mut v = vec![format!("CREATE TABLE {t} (k INT, t TEXT)")];
-        for chunk in (1..=n).collect::<Vec<_>>().chunks(10) {
-            v.push(format!("INSERT INTO {t} VALUES {}", chunk.iter().map(|k| format!("({k}, '{}')", ((b'a' + (*k % 26) as u8) as char).to_string().repeat(300))).collect::<Vec<_>>().join(", ")));
-        }
-        v
-    };
-    let big = |n: usize| big_named("s", n);
-    vec![
-        Scenario { name: "readers", what: "two readers of one table", setup: base(), clients: vec![vec![auto("SELECT * FROM a")], vec![auto("SELECT * FROM a WHERE k = 1")]], tables: vec!["a", "b"], cfg },
-        Scenario { name: "reader-writer", what: "reader and inserter on one table", setup: base(), clients: vec![vec![auto("SELECT * FROM a")], vec![auto("INSERT INTO a VALUES (3, 30)")]], tables: vec!["a", "b"], cfg },
-        Scenario { name: "writers-different-tables", what: "two inserters, different tables", setup: base(), clients: vec![vec![auto("INSERT INTO a VALUES (3, 30)")], vec![auto("INSERT INTO b VALUES (2, 200)")]], tables: vec!["a", "b"], cfg },
-        Scenario { name: "writers-same-table", what: "two inserters, same table, different keys", setup: base(), clients: vec![vec![auto("INSERT INTO a VALUES (3, 30)")], vec![auto("INSERT INTO a VALUES (4, 40)")]], tables: vec!["a", "b"], cfg },
-        Scenario { name: "delete-vs-read", what: "deleter and reader on one table", setup: base(), clients: vec![vec![auto("DELETE FROM a WHERE k = 1")], vec![auto("SELECT * FROM a")]], tables: vec!["a", "b"], cfg },
-        Scenario { name: "update-vs-update", what: "two updaters of different rows of one table", setup: base(), clients: vec![vec![auto("UPDATE a SET v = 11 WHERE k = 1")], vec![auto("UPDATE a SET v = 21 WHERE k = 2")]], tables: vec!["a", "b"], cfg },
-        Scenario {
-            name: "session-vs-autocommit",
-            what: "an older session that commits after a newer autocommit writer, which then reads its own write",
-            setup: base(),
-            clients: vec![vec![COp::Begin, stmt("SELECT * FROM a"), COp::Commit], vec![auto("INSERT INTO b VALUES (2, 200)"), auto("SELECT * FROM b")]],
-            tables: vec!["a", "b"],
-            cfg,
-        },
-        Scenario { name: "unique-inserters", what: "two inserters of different keys into a table with a unique index", setup: uniq(), clients: vec![vec![auto("INSERT INTO x VALUES (3, 30)")], vec![auto("INSERT INTO x VALUES (4, 40)")]], tables: vec!["x", "a"], cfg },
-        Scenario { name: "index-read-vs-insert", what: "index lookup and insert on a table with a unique index", setup: uniq(), clients: vec![vec![auto("SELECT * FROM x WHERE k = 2")], vec![auto("INSERT INTO x VALUES (3, 30)")]], tables: vec!["x", "a"], cfg },
-        Scenario { name: "ddl-vs-dml", what: "CREATE TABLE and an insert into another table", setup: base(), clients: vec![vec![auto("CREATE TABLE c (k INT)")], vec![auto("INSERT INTO a VALUES (3, 30)")]], tables: vec!["a", "b"], cfg },
-        Scenario { name: "drop-vs-select", what: "DROP TABLE and a reader of the same table", setup: base(), clients: vec![vec![auto("DROP TABLE b")], vec![auto("SELECT * FROM b")]], tables: vec!["a"], cfg },
-        Scenario {
-            name: "session-rollback-vs-reader",
-            what: "a session that inserts and rolls back, and a reader",
-            setup: base(),
-            clients: vec![vec![COp::Begin, stmt("INSERT INTO a VALUES (5, 50)"), COp::Rollback], vec![auto("SELECT * FROM a")]],
-            tables: vec!["a", "b"],
-            cfg,
-        },
-        Scenario {
-            name: "session-writers",
-            what: "two sessions inserting different keys into one table and committing",
-            setup: base(),
-            clients: vec![vec![COp::Begin, stmt("INSERT INTO a VALUES (5, 50)"), COp::Commit], vec![COp::Begin, stmt("INSERT INTO a VALUES (6, 60)"), COp::Commit]],
-            tables: vec!["a", "b"],
-            cfg,
-        },
-        Scenario { name: "delete-same-row", what: "two deleters of the same row", setup: base(), clients: vec![vec![auto("DELETE FROM a WHERE k = 1")], vec![auto("DELETE FROM a WHERE k = 1")]], tables: vec!["a", "b"], cfg },
-        Scenario { name: "increment-same-row", what: "two read-modify-write updates of the same row", setup: base(), clients: vec![vec![auto("UPDATE a SET v = v + 1 WHERE k = 1")], vec![auto("UPDATE a SET v = v + 1 WHERE k = 1")]], tables: vec!["a", "b"], cfg },
-        Scenario { name: "split-vs-scan", what: "an insert that splits the root leaf (13th row of 300 B) and a full scan", setup: big(12), clients: vec![vec![auto(&format!("INSERT INTO s VALUES (100, '{}')", "z".repeat(300)))], vec![auto("SELECT k FROM s")]], tables: vec!["s"], cfg },
-        Scenario {
-            name: "two-splitting-inserters",
-            what: "two inserts into a full root leaf",
-            setup: big(12),
-            clients: vec![vec![auto(&format!("INSERT INTO s VALUES (100, '{}')", "z".repeat(300)))], vec![auto(&format!("INSERT INTO s VALUES (0, '{}')", "y".repeat(300)))]],
-            tables: vec!["s"],
-            cfg,
-        },
-        Scenario {
-            name: "eviction-two-scans",
-            what: "two scans of two 4-page tables under a 10-page cache",
-            setup: { let mut v = big(40); v.extend(big_named("r", 40)); v },
-            clients: vec![vec![auto("SELECT k FROM s")], vec![auto("SELECT k FROM r")]],
-            tables: vec!["s", "r"],
-            cfg: Cfg { cache: 10, ..cfg },
-        },
-        Scenario {
-            name: "eviction-scan-vs-insert",
-            what: "a scan and an insert on two 4-page tables under a 10-page cache",
-            setup: { let mut v = big(40); v.extend(big_named("r", 40)); v },
-            clients: vec![vec![auto("SELECT k FROM s")], vec![auto(&format!("INSERT INTO r VALUES (100, '{}')", "z".repeat(300)))]],
-            tables: vec!["s", "r"],
-            cfg: Cfg { cache: 10, ..cfg },
-        },
-        Scenario {
-            name: "three-clients",
-            what: "two inserters on different tables and a reader",
-            setup: base(),
-            clients: vec![vec![auto("INSERT INTO a VALUES (3, 30)")], vec![auto("INSERT INTO b VALUES (2, 200)")], vec![auto("SELECT * FROM a")]],
-            tables: vec!["a", "b"],
-            cfg,
-        },
-    ]
-}
-
-// ------------------------------------------------------------------------------------ running ops
-
-fn norm(o: &Out) -> String {
-    match o {
-        Out::Rows(r) => {
-            let mut r = r.clone();
-            r.sort();
-            Out::Rows(r).show()
-        }
-        Out::Err(c, _) => format!("ERR<{c:?}>"),
-        other => other.show(),
-    }
-}
-
-fn exec_out(r: Result<axmosdb::runtime::QueryResult, String>) -> Out {
-    match r {
-        Ok(q) => from_query_result(q),
-        Err(m) => Out::Err(classify(&m), m),
-    }
-}
-
-/// Run one client's operations on the calling thread. Returns (normalised results, raw error texts).
-fn run_ops(db: &Database, ops: &[COp]) -> (Vec<String>, Vec<String>) {
-    let mut res = vec![];
-    let mut errs = vec![];
-    let mut sess: Option<axmosdb::tcp::session::Session> = None;
-    let mut push = |o: Out, res: &mut Vec<String>| {
-        if let Out::Err(_, m) = &o {
-            errs.push(m.clone());
-        }
-        res.push(norm(&o));
-    };
-    for op in ops {
-        match op {
-            COp::Auto(sql) => push(exec_out(db.execute(sql).map_err(|e| e.to_string())), &mut res),
-            COp::Begin => match db.session() {
-                Ok(s) => {
-                    sess = Some(s);
-                    res.push("begin-ok".into());
-                }
-                Err(e) => push(Out::Err(classify(&e.to_string()), e.to_string()), &mut res),
-            },
-            COp::Stmt(sql) => match sess.as_mut() {
-                Some(s) => push(exec_out(s.execute(sql).map_err(|e| e.to_string())), &mut res),
-                None => res.push("no-session".into()),
-            },
-            COp::Commit => match sess.take() {
-                Some(mut s) => match s.commit_transaction() {
-                    Ok(()) => res.push("commit-ok".into()),
-                    Err(e) => push(Out::Err(classify(&e.to_string()), e.to_string()), &mut res),
-                },
-                None => res.push("no-session".into()),
-            },
-            COp::Rollback => match sess.take() {
-                Some(mut s) => match s.abort_transaction() {
-                    Ok(()) => res.push("rollback-ok".into()),
-                    Err(e) => push(Out::Err(classify(&e.to_string()), e.to_string()), &mut res),
-                },
-                None => res.push("no-session".into()),
-            },
-        }
-    }
-    (res, errs)
-}
-
-fn fresh_db(sc: &Scenario) -> Result<(Arc<Database>, std::path::PathBuf), String> {
-    let dir = fresh_dir("conc");
-    let p = Db::path_in(&dir);
-    let db = Database::create(&p, sc.cfg.to_db()).map_err(|e| format!("create: {e}"))?;
-    for s in &sc.setup {
-        db.execute(s).map_err(|e| format!("setup `{s}`: {e}"))?;
-    }
-    Ok((Arc::new(db), dir))
-}
-
-fn audit(db: &Database, sc: &Scenario) -> String {
-    let mut parts = vec![];
-    for t in &sc.tables {
-        let cols = if *t == "s" || *t == "r" { "k" } else { "*" };
-        let o = exec_out(db.execute(&format!("SELECT {cols} FROM {t}")).map_err(|e| e.to_string()));
-        parts.push(format!("{t}={}", norm(&o)));
-    }
-    parts.join(" ")
-}
-
-/// Split a client's ops into transactions (autocommit statement, or Begin..Commit/Rollback).
-fn transactions(ops: &[COp]) -> Vec<Vec<COp>> {
-    let mut out = vec![];
-    let mut cur: Vec<COp> = vec![];
-    for op in ops {
-        match op {
-            COp::Auto(_) if cur.is_empty() => out.push(vec![op.clone()]),
-            COp::Commit | COp::Rollback => {
-                cur.push(op.clone());
-                out.push(std::mem::take(&mut cur));
-            }
-            _ => cur.push(op.clone()),
-        }
-    }
-    if !cur.is_empty() {
-        out.push(cur);
-    }
-    out
-}
-
-/// All merges of the clients' transaction lists that keep each client's own order.
-fn merges(lens: &[usize]) -> Vec<Vec<usize>> {
-    fn go(lens: &[usize], pos: &mut Vec<usize>, cur: &mut Vec<usize>, out: &mut Vec<Vec<usize>>) {
-        if pos.iter().zip(lens).all(|(p, l)| p == l) {
-            out.push(cur.clone());
-            return;
-        }
-        for c in 0..lens.len() {
-            if pos[c] < lens[c] {
-                pos[c] += 1;
-                cur.push(c);
-                go(lens, pos, cur, out);
-                cur.pop();
-                pos[c] -= 1;
-            }
-        }
-    }
-    let mut out = vec![];
-    go(lens, &mut vec![0; lens.len()], &mut vec![], &mut out);
-    out
-}
-
-fn outcome_string(results: &[Vec<String>], audit: &str) -> String {
-    format!("{} || final: {audit}", results.iter().enumerate().map(|(i, r)| format!("T{i}: {}", r.join(" ; "))).collect::<Vec<_>>().join(" | "))
-}
-
-/// Outcomes of every serial order, produced by the engine itself on one thread.
-fn serial_outcomes(sc: &Scenario) -> Result<BTreeMap<String, Vec<usize>>, String> {
-    let txs: Vec<Vec<Vec<COp>>> = sc.clients.iter().map(|c| transactions(c)).collect();
-    let lens: Vec<usize> = txs.iter().map(|t| t.len()).collect();
-    let mut out = BTreeMap::new();
-    for order in merges(&lens) {
-        let (db, dir) = fresh_db(sc)?;
-        let mut pos = vec![0usize; lens.len()];
-        let mut results: Vec<Vec<String>> = vec![vec![]; lens.len()];
-        for c in &order {
-            let t = &txs[*c][pos[*c]];
-            pos[*c] += 1;
-            let (r, _) = run_ops(&db, t);
-            results[*c].extend(r);
-        }
-        let a = audit(&db, sc);
-        drop(db);
-        let _ = std::fs::remove_dir_all(&dir);
-        out.entry(outcome_string(&results, &a)).or_insert(order);
-    }
-    Ok(out)
-}
+mod scen;
+use scen::*;
 
 // ------------------------------------------------------------------------------------ one controlled execution
 
